@@ -1,1 +1,101 @@
 // in-crate Kani harnesses included into the real crate under cfg(kani) (see MANIFEST.hooks)
+
+// C05 / C06: the header-value canonicaliser (push_canonical_header_value), decided on every value of N bytes over
+// {SP, HTAB, 'a', 'b'} against the SigV4 rule: surrounding white space removed, sequential SPACES converted to one space,
+// every other byte (a horizontal tab inside the value included) kept as it is.
+#[allow(clippy::all, clippy::pedantic, dead_code, unused_imports, unused_variables)]
+mod verif_kani_hv {
+    use super::*;
+
+    pub fn naive_memchr(x: u8, text: &[u8]) -> Option<usize> {
+        let mut i = 0;
+        while i < text.len() {
+            if text[i] == x {
+                return Some(i);
+            }
+            i += 1;
+        }
+        None
+    }
+
+    fn ws(c: u8) -> bool {
+        c == b' ' || c == b'\t'
+    }
+
+    fn ref_canon(v: &[u8], out: &mut [u8; 8]) -> usize {
+        let mut s = 0;
+        let mut e = v.len();
+        while s < e && ws(v[s]) {
+            s += 1;
+        }
+        while e > s && ws(v[e - 1]) {
+            e -= 1;
+        }
+        let mut n = 0;
+        let mut prev_sp = false;
+        let mut i = s;
+        while i < e {
+            let c = v[i];
+            if c == b' ' {
+                if !prev_sp {
+                    out[n] = c;
+                    n += 1;
+                }
+                prev_sp = true;
+            } else {
+                out[n] = c;
+                n += 1;
+                prev_sp = false;
+            }
+            i += 1;
+        }
+        n
+    }
+
+    fn run<const N: usize>() {
+        let v: [u8; N] = kani::any();
+        let mut i = 0;
+        while i < N {
+            kani::assume(v[i] == b' ' || v[i] == b'\t' || v[i] == b'a' || v[i] == b'b');
+            i += 1;
+        }
+        let s = match core::str::from_utf8(&v) {
+            Ok(s) => s,
+            Err(_) => return,
+        };
+        let mut ans = String::with_capacity(16);
+        push_canonical_header_value(&mut ans, s);
+        let mut want = [0u8; 8];
+        let n = ref_canon(&v, &mut want);
+        let got = ans.as_bytes();
+        assert!(got.len() == n, "canonical header value has the length the SigV4 rule gives");
+        let mut j = 0;
+        while j < n && j < got.len() {
+            assert!(got[j] == want[j], "canonical header value equals the SigV4 rule's, byte for byte");
+            j += 1;
+        }
+        kani::cover!(n > 0 && n < N);
+        core::mem::forget(ans);
+    }
+
+    #[kani::proof]
+    #[kani::unwind(8)]
+    #[kani::stub(core::slice::memchr::memchr, naive_memchr)]
+    fn c05_hv_canon_3() {
+        run::<3>();
+    }
+
+    #[kani::proof]
+    #[kani::unwind(8)]
+    #[kani::stub(core::slice::memchr::memchr, naive_memchr)]
+    fn c05_hv_canon_4() {
+        run::<4>();
+    }
+
+    #[kani::proof]
+    #[kani::unwind(9)]
+    #[kani::stub(core::slice::memchr::memchr, naive_memchr)]
+    fn c05_hv_canon_5() {
+        run::<5>();
+    }
+}
